@@ -1,5 +1,8 @@
 import Gedcom.Model.MergeGraph
+import Gedcom.Model.MergeDocs
+import Gedcom.Model.Decoder
 import Driver.Util
+import Driver.Tree
 namespace Driver
 open Gedcom.MergeG
 
@@ -61,6 +64,41 @@ def handleMergeGraph (cmd : String) (rest : List String) : Option String :=
     | some g =>
       let rows := (mgRows g).mergeSort (fun a b => !decide (b < a))
       some (if rows.isEmpty then "-" else " ".intercalate rows)
+    | none => some "bad-op"
+  | _ => none
+
+/-
+  mergedocs <nm> m* <forest left> <forest right>     m := B i j | L i | R j
+  (i, j: positions among the INDI records of each document, in the order the comparisons arrived)
+  answer: `ok legal=<b> <forest>` — the records of the merged document in order and whether they
+  pass C01's legality check (`legalDocB`, the guard of `output_redecodes_partial`) — or
+  `error` / `panic` / `oof`.
+-/
+def mdRes (L R : List Gedcom.INode) : M → Gedcom.Match.Res
+  | .both i j => ((L[i]?).map (·.id), (R[j]?).map (·.id))
+  | .left i => ((L[i]?).map (·.id), none)
+  | .right j => (none, (R[j]?).map (·.id))
+
+def handleMergeDocs (cmd : String) (rest : List String) : Option String :=
+  match cmd with
+  | "mergedocs" =>
+    match (do
+      let (m, rest) ← mgCount mgM rest
+      let (l, rest) ← parseForest rest
+      let (r, rest) ← parseForest rest
+      if rest.isEmpty then pure (m, l, r) else none : Option (List M × Gedcom.Forest × Gedcom.Forest)) with
+    | some (m, l, r) =>
+      let a := Gedcom.labelList 0 l
+      let b := Gedcom.labelList a.2 r
+      let res := m.map (mdRes (Gedcom.MergeD.indisOf a.1) (Gedcom.MergeD.indisOf b.1))
+      match Gedcom.MergeD.mergeDocs res a.1 b.1 ⟨b.2, [], false, false⟩ with
+      | .error => some "error"
+      | .panic => some "panic"
+      | .outOfFuel => some "oof"
+      | o@(.ok _ _ _) =>
+        match o.nodes with
+        | some ns => some s!"ok legal={b2s (Gedcom.Dec.legalDocB ⟨false, ns⟩)} {showForest ns}"
+        | none => some "error"
     | none => some "bad-op"
   | _ => none
 
